@@ -130,7 +130,8 @@ def finish(ctx, t0, extra_cov=None):
         'per_rule': counts,
         'floors': ctx.floors,
         'units_analysed': sorted(ctx.prog.raw.keys()) if ctx.prog else [],
-        'functions_analysed': len(funcs),
+        'functions_in_program': len(funcs),
+        'functions_with_obligations': sorted({str(o['fn']).split(':')[-1] for o in ctx.obs if o.get('fn')}),
         'configurations': ctx.configs,
         'exemptions_used': ctx.exempt_used,
         'notes': ctx.notes,
